@@ -79,6 +79,11 @@ func (r *RoutingTable) verifyRoutingTable(id uint64, table map[uint64]*route) er
 		if data == nil {
 			return fmt.Errorf("no route for partition id: %d", partID)
 		}
+		if len(data.Owners) == 0 {
+			// Partition.Owner panics on an empty owners list: the next request for this
+			// partition would take the process down.
+			return fmt.Errorf("no owner for partition id: %d", partID)
+		}
 	}
 	return nil
 }
